@@ -361,6 +361,36 @@ impl Prop for C12 {
         Ok(())
     }
 
+    fn sanitize(case: &mut Case) {
+        // byte-decoded (fuzzer) cases: bounded buffers and histories
+        match case {
+            Case::Int { buf, hist, .. } => {
+                if let Buf::Len(l) = buf {
+                    *l %= 1 << 14;
+                }
+                hist.truncate(300);
+                for h in hist.iter_mut() {
+                    if let IntPush::Extend(_, v) = h {
+                        v.truncate(64);
+                    }
+                }
+            }
+            Case::Raw { header, buf, hist, .. } => {
+                header.truncate(8);
+                if let Buf::Len(l) = buf {
+                    *l %= 1 << 18;
+                }
+                hist.truncate(600);
+                for h in hist.iter_mut() {
+                    // push_int is only defined for widths up to 64
+                    if let RawPush::Int(_, w) = h {
+                        *w %= 65;
+                    }
+                }
+            }
+        }
+    }
+
     fn assumptions() -> Vec<String> {
         vec![
             "a RawVectorWriter created with a non-empty parent header is closed with close_with_header (as a parent writer does); drop-only endings are used with an empty header or through IntVectorWriter".into(),
